@@ -54,6 +54,7 @@ class Exec:
         self.query_s = 0.0
         self.fresh_counter = 0
         self.extra_cons = []          # constraints introduced during the path (e.g. rounding etas)
+        self.active = False
 
     # -- solver helpers -----------------------------------------------------------------
     def _check(self, *assumptions):
@@ -176,6 +177,7 @@ class Exec:
         self.n_decisions = 0
         self._model = None
         self.solver.push()
+        self.active = True
         try:
             try:
                 out = fn()
@@ -186,6 +188,7 @@ class Exec:
             except Exception as e:      # noqa: BLE001 - exceptions of the code under test are results
                 out = (type(e).__name__, str(e), traceback.format_exc(limit=6))
                 status = 'exception'
+            self.active = False
             extra = None
             model = None
             if on_path is not None:
